@@ -186,6 +186,28 @@ pub fn gen_case(r: &mut Rng, out: &mut String, with_queries: bool) {
             writeln!(out, "dump b0").unwrap();
         }
     }
+    // trait-impl glue: clone_from over a dirty destination, Default, Extend<&u32>, FromIterator<&u32>, From<[u32; N]>,
+    // `for x in &bitmap`
+    if r.chance(1, 3) {
+        writeln!(out, "new b8").unwrap();
+        writeln!(out, "insert_range b8 in:3 ex:4500").unwrap();
+        writeln!(out, "clone_from b8 b0").unwrap();
+        writeln!(out, "eq b8 b0").unwrap();
+        writeln!(out, "expect true").unwrap();
+        writeln!(out, "default b7").unwrap();
+        let n = r.range(0, 4);
+        let vs: Vec<String> = (0..n).map(|_| value(r, nkeys).to_string()).collect();
+        writeln!(out, "extend_ref b7 {}", vs.join(" ")).unwrap();
+        writeln!(out, "from_iter_ref b6 {}", vs.join(" ")).unwrap();
+        writeln!(out, "from_arr b5 {}", vs.join(" ")).unwrap();
+        writeln!(out, "eq b6 b7").unwrap();
+        writeln!(out, "expect true").unwrap();
+        writeln!(out, "eq b5 b7").unwrap();
+        writeln!(out, "expect true").unwrap();
+        writeln!(out, "dump b7").unwrap();
+        writeln!(out, "for_ref b0").unwrap();
+        writeln!(out, "first_last b0").unwrap();
+    }
     if with_queries {
         queries(r, out, "b0", nkeys);
     }
